@@ -350,6 +350,16 @@ def oracle_c05(w, quiescent=True):
         if e[0] == 'F' and (e[2].endswith(':4') or e[2].endswith(',4')) and int(e[1]) in parent:
             complete_at.setdefault(parent[int(e[1])], []).append(i)
     unfinished_tasks = any(r is not None and r.split(':')[3] != '0' for r in w.residue())
+    live_gens = set()        # events that still have a suspended handler (user generator or its call()/wait() helper)
+    unknown_live = False
+    for g in getattr(w, 'keep', []):
+        if getattr(g, 'gi_frame', None) is None:
+            continue
+        kind = w.side['gens'].get(w.gen_ids.get(id(g)), ('other',))
+        if kind[0] in ('user', 'wait'):
+            live_gens.add(kind[1])
+        else:
+            unknown_live = True
     for vid, ti in tm.items():
         if 'c' not in (w.sc['tmpls'][ti].get('flags') or ''):
             continue
@@ -370,7 +380,9 @@ def oracle_c05(w, quiescent=True):
             out.append(('double-complete', f'event {vid} ({names.get(vid)}): {len(got)} complete events'))
         # drained = every member was dispatched and none of them still has a suspended handler (a handler waiting for
         # an event nobody fires keeps its event - and therefore the closure - unfinished for ever: nothing is owed)
-        drained = all(m in disp and not getattr(w.events.get(m), 'waitingHandlers', 0) for m in clos)
+        # (judged by the generators themselves, not by the code's `waitingHandlers` counter: a counter that stays positive
+        # although no handler of the event is suspended any more is exactly the kind of defect that keeps `complete` away)
+        drained = all(m in disp and m not in live_gens for m in clos) and not unknown_live
         if got:
             late = [m for m in clos if m not in disp or lastidx.get(m, -1) > got[0]]
             if late:
